@@ -79,7 +79,7 @@ fn run_case(case: &[String]) -> String {
                     domain: None,
                     nonce: s(f[5]).into(),
                     opaque: if f[6] == "-" { None } else { Some(s(f[6]).into()) },
-                    stale: false,
+                    stale: f.get(7).map(|x| *x == "1").unwrap_or(false),
                     algorithm,
                     qop,
                     userhash: f[3] == "1",
